@@ -100,18 +100,60 @@ def loopState (limit : Nat) : Nat → Nat × Nat
     let p := loopState limit j
     if p.2 > 0 then (p.1, p.2 - 1) else (p.1 + batch limit, batch limit - 1)
 
-/-- capacity of the protocol engine's send queue: `p.sendQueueChan = make(chan outboundMessage, 80)`
-    (protocol/protocol.go, Protocol.Start) -/
-def sendQueueCap : Nat := 80
-
-/-- `Client.Stop` enqueues MsgDone behind the RequestNext messages still waiting in the send
-    queue (`queued` of them); `SendMessage` blocks while the queue is full and nothing else
-    wakes it as long as the server stays silent and connected -/
-def doneFits (queued : Nat) : Bool := decide (queued < sendQueueCap)
+/-- `Client.Stop` enqueues MsgDone behind the RequestNext messages still waiting in the protocol
+    engine's send queue (`queued` of them; capacity `cap` = `p.sendQueueChan`, regenerated as
+    `GV.Gen.ChainSyncLimits.sendQueueCap`); `SendMessage` blocks while the queue is full and
+    nothing else wakes it as long as the server stays silent and connected. The same holds for
+    the sync loop's own batch of RequestNext messages. -/
+def fitsQueue (cap queued extra : Nat) : Bool := decide (queued + extra ≤ cap)
 
 /-- number of messages up to and including the first one whose callback asks to stop -/
 def liveSignals : List Msg → Nat
   | [] => 0
   | m :: t => if m.stop then 0 else 1 + liveSignals t
+
+/-! ### with a block pipeline (node-to-client, `Config.Pipeline != nil`)
+
+  handleRollForward: `Pipeline.Submit(...)`, then signals the sync loop at once — the
+  block is applied later, by the pipeline, in submission order (ApplyFunc).
+  handleRollBackward: `Pipeline.WaitForDrain(ctx)` with PipelineDrainTimeout (0 is
+  replaced by DefaultPipelineDrainTimeout), then RollBackwardFunc.  -/
+
+inductive SrvMsg
+  | fwd (tag : Nat)
+  | back (tag : Nat)
+deriving Repr, DecidableEq
+
+structure PSt where
+  /-- handleRollBackward waits for the pipeline to drain before the callback -/
+  drains : Bool
+  hist : List SrvMsg       -- server messages not yet handled by the receive loop
+  pending : List Nat       -- submitted to the pipeline, not yet applied (FIFO)
+  log : List SrvMsg        -- ghost: ApplyFunc calls and RollBackwardFunc calls in the order they happen
+deriving Repr, DecidableEq
+
+inductive PAct
+  | handle     -- the receive loop handles the next server message
+  | apply      -- the pipeline applies its oldest pending block
+deriving Repr, DecidableEq
+
+def pstep (s : PSt) : PAct → Option PSt
+  | .handle =>
+    match s.hist with
+    | [] => none
+    | .fwd t :: r => some { s with hist := r, pending := s.pending ++ [t] }
+    | .back t :: r =>
+      if s.drains && !s.pending.isEmpty then none     -- blocked in WaitForDrain
+      else some { s with hist := r, log := s.log ++ [.back t] }
+  | .apply =>
+    match s.pending with
+    | [] => none
+    | t :: r => some { s with pending := r, log := s.log ++ [.fwd t] }
+
+def prun (s : PSt) : List PAct → Option PSt
+  | [] => some s
+  | a :: t => match pstep s a with
+    | some s' => prun s' t
+    | none => none
 
 end GV.Model.SyncLoop
